@@ -55,6 +55,23 @@ func genAttrs(r *common.Rand, name xml.Name, top bool) []xml.Attr {
 			}
 		case 6:
 			add("urn:attr", "k", pick(r, valPool))
+		case 7:
+			// round E (review A-1): attributes that share only the LOCAL name with id / from /
+			// xmlns.  The property speaks about the stanza's id and from attribute (no
+			// namespace); a namespaced attribute of that local name is "anything else" and
+			// must neither be taken for the id / from nor be deleted.
+			switch r.Intn(5) {
+			case 0:
+				add(nsXML, "id", pick(r, []string{"x1", ""}))
+			case 1:
+				add("urn:attr", "id", pick(r, []string{"n1", ""}))
+			case 2:
+				add("urn:attr", "from", pick(r, []string{"other@example.org", ""}))
+			case 3:
+				add("urn:attr", "xmlns", pick(r, []string{"urn:v", ""}))
+			default:
+				add("urn:attr", "to", pick(r, valPool))
+			}
 		default:
 			add("", pick(r, []string{"a", "b", "c"}), pick(r, valPool))
 		}
